@@ -285,31 +285,50 @@ fn c05_rejected_push_then_pop() {
 // writes reaches (T1.spec,T2.spec,T2.gate,T1.gate is the nested case; T2.spec,T1.spec,T1.gate,
 // T2.gate is the same case with the roles of A and B swapped; all others end consistent).
 static T2: std::sync::Mutex<Option<(LoggerHandle, u64, u64)>> = std::sync::Mutex::new(None);
-static T3: std::sync::Mutex<Option<(LoggerHandle, u64, u64)>> = std::sync::Mutex::new(None);
-fn run_parked(slot: &std::sync::Mutex<Option<(LoggerHandle, u64, u64)>>) {
-    let parked = slot.lock().unwrap().take();
-    if let Some((h, a, d)) = parked {
-        let free = h.writers_handle.spec.try_write().is_ok();
-        if free {
-            vs::cell_inc(11); // nested run happened
-            h.writers_handle.set_new_spec(spec_of(a, d)).ok();
-        } else {
-            vs::cell_inc(12); // the other thread would block here: it runs later (put it back)
-            *slot.lock().unwrap() = Some((h.clone(), a, d));
+// Schedule points of the first thread: *before* every acquisition of the spec lock (read or
+// write) and before the gate is written. cell 13 = points passed so far, cell 14 = the point at
+// which the second thread arrives (symbolic). From its arrival on, the second thread runs its
+// whole set_new_spec at the first point where the spec lock is free (try_write succeeds) - a
+// thread blocked on the lock proceeds as soon as it is released - or after the first thread has
+// returned. cell 11 counts nested runs, cell 12 blocked attempts.
+fn sched_point() {
+    let n = vs::cell_inc(13) - 1;
+    if n >= vs::cell_get(14) {
+        let parked = T2.lock().unwrap().take();
+        if let Some((h, a, d)) = parked {
+            let free = h.writers_handle.spec.try_write().is_ok();
+            if free {
+                vs::cell_inc(11);
+                h.writers_handle.set_new_spec(spec_of(a, d)).ok();
+                std::mem::forget(h);
+            } else {
+                vs::cell_inc(12);
+                *T2.lock().unwrap() = Some((h, a, d));
+            }
         }
-        std::mem::forget(h);
     }
 }
 fn stub_set_max_level_sched(l: LevelFilter) {
-    // schedule point: "just before this call publishes its gate value"
-    if vs::cell_get(13) == 1 {
-        vs::cell_set(13, 2);
-        run_parked(&T2);
-    } else if vs::cell_get(13) == 2 && vs::cell_get(14) == 1 {
-        vs::cell_set(14, 2);
-        run_parked(&T3);
-    }
+    sched_point();
     vs::gate_set(l as usize);
+}
+// RwLock::read / ::write as "schedule point, then acquire" (acquisition through the real
+// try_read / try_write; WouldBlock can only mean that this same thread already holds the lock)
+fn stub_rw_read<T: ?Sized>(l: &RwLock<T>) -> std::sync::LockResult<std::sync::RwLockReadGuard<'_, T>> {
+    sched_point();
+    match l.try_read() {
+        Ok(g) => Ok(g),
+        Err(std::sync::TryLockError::Poisoned(p)) => Err(p),
+        Err(std::sync::TryLockError::WouldBlock) => unreachable!("self-deadlock on the spec lock"),
+    }
+}
+fn stub_rw_write<T: ?Sized>(l: &RwLock<T>) -> std::sync::LockResult<std::sync::RwLockWriteGuard<'_, T>> {
+    sched_point();
+    match l.try_write() {
+        Ok(g) => Ok(g),
+        Err(std::sync::TryLockError::Poisoned(p)) => Err(p),
+        Err(std::sync::TryLockError::WouldBlock) => unreachable!("self-deadlock on the spec lock"),
+    }
 }
 
 macro_rules! c12_harness {
@@ -320,16 +339,15 @@ macro_rules! c12_harness {
         #[kani::stub(std::fmt::format, stub_format)]
         #[kani::stub(std::hash::RandomState::new, verif_support::stub_random_state)]
         #[kani::stub(log::set_max_level, stub_set_max_level_sched)]
+        #[kani::stub(std::sync::RwLock::read, stub_rw_read)]
+        #[kani::stub(std::sync::RwLock::write, stub_rw_write)]
         $(#[$m])*
         fn $name() $body
     };
 }
 
-// @verif prop=C12 tier=quick timeout=900 replay=two_setters bounds=2-concurrent-set_new_spec,well-nested-interleavings,specs{a=L,default=L}
-// Two concurrent set_new_spec(A) / set_new_spec(B) calls, second one placed before / inside the window between spec update and gate update / after the first: afterwards the logger filters by exactly A or exactly B and the facade's gate admits every level that spec enables.
-c12_harness! {
-#[kani::unwind(8)]
-fn c12_two_setters() {
+// The arrival point is concrete per instance (symbolic: CBMC > 12 GB); specifications are symbolic.
+fn two_setters_case(arrive: u64) {
     vs::link_all();
     vs::cell_set(9, 0);
     let (a0, d0) = (any_rank(), any_rank());
@@ -337,34 +355,43 @@ fn c12_two_setters() {
     let (ab, db) = (any_rank(), any_rank());
     let h1 = mk_handle(a0, d0, false);
     let h2 = h1.clone();
-    let pos: u8 = kani::any(); // 0: T2 first, 1: T2 inside T1's window, 2: T2 after T1
-    kani::assume(pos < 3);
-    if pos == 0 {
-        h2.writers_handle.set_new_spec(spec_of(ab, db)).ok();
-        h1.writers_handle.set_new_spec(spec_of(aa, da)).ok();
-    } else if pos == 1 {
-        *T2.lock().unwrap() = Some((h2.clone(), ab, db));
-        vs::cell_set(13, 1);
-        h1.writers_handle.set_new_spec(spec_of(aa, da)).ok();
-        // if T2 was blocked by the lock at the schedule point it runs once T1 is done
-        vs::cell_set(13, 0);
-        let parked = T2.lock().unwrap().take();
-        if let Some((h, a, d)) = parked {
-            h.writers_handle.set_new_spec(spec_of(a, d)).ok();
-            std::mem::forget(h);
-        }
-    } else {
-        h1.writers_handle.set_new_spec(spec_of(aa, da)).ok();
-        h2.writers_handle.set_new_spec(spec_of(ab, db)).ok();
+    *T2.lock().unwrap() = Some((h2.clone(), ab, db));
+    vs::cell_set(13, 0);
+    vs::cell_set(14, arrive);
+    h1.writers_handle.set_new_spec(spec_of(aa, da)).ok();
+    // T2 arrived later, or was still blocked when T1 returned: it runs now
+    vs::cell_set(14, 1000);
+    let parked = T2.lock().unwrap().take();
+    if let Some((h, a, d)) = parked {
+        h.writers_handle.set_new_spec(spec_of(a, d)).ok();
+        std::mem::forget(h);
     }
     let (fa, fd) = (observed_rank(&h1, "ab"), observed_rank(&h1, "b"));
     // exactly one of the submitted specifications, as a whole
     assert!((fa, fd) == (aa, da) || (fa, fd) == (ab, db));
     // the gate admits every record this specification enables
     assert!(vs::gate_get() as u64 >= std::cmp::max(fa, fd));
-    kani::cover!(pos == 1 && vs::cell_get(11) + vs::cell_get(12) == 1, "schedule point reached: second setter ran inside the first one's window, or was blocked by the lock there");
-    kani::cover!(pos == 1 && std::cmp::max(aa, da) < std::cmp::max(ab, db), "first spec stricter than second");
+    kani::cover!(std::cmp::max(aa, da) < std::cmp::max(ab, db), "first spec stricter than second");
+    kani::cover!(std::cmp::max(aa, da) > std::cmp::max(ab, db), "second spec stricter than first");
     std::mem::forget(h1);
     std::mem::forget(h2);
 }
+macro_rules! two_setters_instance {
+    ($name:ident, $arrive:expr) => {
+        c12_harness! {
+        #[kani::unwind(8)]
+        fn $name() {
+            two_setters_case($arrive);
+        }
+        }
+    };
 }
+// @verif prop=C12 tier=quick timeout=900 replay=two_setters bounds=2-concurrent-set_new_spec,second-call-arrives-before-the-first-takes-the-lock,specs{a=L,default=L}-symbolic
+// Two concurrent set_new_spec(A) / set_new_spec(B) calls; the second arrives at schedule point 0 of the first (before its first lock acquisition) and runs as soon as the spec lock is free: afterwards the logger filters by exactly A or exactly B and the gate admits every level that spec enables.
+two_setters_instance!(c12_two_setters_arrive0, 0);
+// @verif prop=C12 tier=quick timeout=900 replay=two_setters bounds=same,second-call-arrives-at-schedule-point-1(after-the-spec-update:-next-lock-acquisition-or-gate-update)
+// ... the second call arrives at schedule point 1 of the first (the first point after the spec update).
+two_setters_instance!(c12_two_setters_arrive1, 1);
+// @verif prop=C12 tier=quick timeout=900 replay=two_setters bounds=same,second-call-arrives-at-schedule-point-2
+// ... arrives at schedule point 2 (if the first call has that many; otherwise after it).
+two_setters_instance!(c12_two_setters_arrive2, 2);
